@@ -215,6 +215,11 @@ def fwd_job(dom, prog, wd, di, thr, tier, live=0, sym=None, budget=400, soft=Fal
     if dom in MACHINE_WEIGHT:
         args["range"] = 3
         args["sym"] = ",".join(args["sym"].split(",")[:2])
+    elif dom in (9, 25):  # congruences: gcd/modulo loops over symbolic constants are non-linear for the solver
+        args["range"] = 3
+        args["sym"] = args["sym"].split(",")[0]
+    elif dom not in (1, 2):
+        args["sym"] = ",".join(args["sym"].split(",")[:2])
     return Job("fwd", args, defines=("DOM=%d" % dom,), budget=budget, what="%s on %s" % (DOMS[dom][0], prog), witnesses=1, soft=soft)
 
 
@@ -222,7 +227,7 @@ def c01_jobs(tier, seed):
     J = []
     params = [(1, 1, 0), (0, 0, 0), (2, 2, 5)] if tier == "quick" else [(w, d, t) for w in (0, 1, 2) for d in (0, 1, 2) for t in (0, 5)]
     doms_full = [1, 2]
-    doms_light = [3, 4, 5, 9, 10, 11, 12, 13, 14, 16, 17, 18, 20, 21, 6, 7, 8, 25]
+    doms_light = [3, 5, 10, 11, 12, 13, 17, 18, 9] if tier == "quick" else [3, 4, 5, 9, 10, 11, 12, 13, 14, 16, 17, 18, 20, 21, 6, 7, 8, 25]
     for pr in FWD_PROGS:
         for (wd, di, thr) in params:
             for d in doms_full:
@@ -284,7 +289,7 @@ def c06_jobs(tier, seed):
     if tier == "thorough":
         J.append(Job("c06", {"shape": "sym", "nv": 3, "wd": 1, "di": 1}, what="all graphs with 3 blocks (symbolic adjacency bits)", budget=3000, shards=16, shard_depth=8))
     # clause 2: no extrapolation within the widening delay, on a real domain
-    for pr in ("loop", "selfloop", "nested", "loop2"):
+    for pr in ("loop", "selfloop", "nested"):
         for d in (1, 2):
             J.append(Job("c06b", {"prog": pr, "wd": 8 if tier == "quick" else 12, "sym": "0"}, defines=("DOM=%d" % d,), what="join-only least fixpoint within the delay: %s on %s" % (pr, DOMS[d][0]), witnesses=1, budget=600))
     return J
@@ -329,3 +334,76 @@ PROPS["C07"] = dict(
     bounds={"quick": "all directed graphs with <= 4 nodes (self loops, unreachable nodes, irreducible cycles included), every entry node for <= 3 nodes, two successor orders", "thorough": "4 nodes: every entry node and all 24 global successor orders; 5 nodes attempted under a budget"},
     outside=["graphs with more than 4 nodes", "successor orders that differ from node to node (orders are a global permutation of the node numbering)", "call-graph instantiation cg_bgl.hpp (same template)"],
     assumptions=E2_ASSUME)
+
+# ---------------------------------------------------------------- C13 (E1), C20 (E1 + E2), C19 kernels (E1)
+E1_ASSUME = [
+    "engine E1: the unit is compiled by clang++-14 from /repo's current sources, linked and reduced at the LLVM-IR level, translated to C by e1/ll2c.py and decided by CBMC 6.11 (kissat) with unwinding assertions; the translation is validated on every run against a native g++ build of the same harness with the real libraries on 300 random vectors",
+    "malloc never fails; exit()/CRAB_ERROR end the path (no result is produced there); printing is not modelled",
+    "preconditions of the API are assumed as documented in each harness (equal widths, shift amount < width, divisor != 0)",
+]
+GMP_ASSUME = ["units that use ikos::z_number run over the inline GMP model e1/stub/gmp.h (128-bit exact add/sub/compare/bitwise; mul/div at 32 bit with range-asserted operands); the model is cross-checked against the real GMP by the native validation step"]
+
+
+def c13_jobs(tier, seed):
+    J = []
+    mw = 16 if tier == "quick" else 24
+    for e in ("h_wi_ctor", "h_wi_add", "h_wi_addeq", "h_wi_cmp", "h_wi_bitwise", "h_wi_ashr", "h_wi_shl", "h_wi_ext", "h_wi_trunc"):
+        J.append(E1Job("wrapint", e, what="lib/wrapint.cpp: all widths 1..64, all 64-bit operands", unwind=2, timeout=600, args={"libs": ["wrapint"], "seed": 1 + seed}))
+    for e in ("h_wi_mul", "h_wi_udiv"):
+        J.append(E1Job("wrapint", e, what="lib/wrapint.cpp: widths 1..%d (multiplier/divider)" % mw, unwind=2, timeout=900, args={"libs": ["wrapint"], "seed": 1 + seed}, defines=("MULW=%d" % mw,)))
+    for e in ("h_wb_to_bignum", "h_wb_from_bignum"):
+        J.append(E1Job("wrapint_big", e, what="wrapint <-> z_number conversions: all widths, all values (GMP model)", unwind=2, timeout=600, args={"libs": ["wrapint", "bignums"], "gmp_model": True, "seed": 1 + seed}))
+    J.append(E1Job("wrapint_big", "h_wb_sdiv", what="wrapint sdiv/srem, widths 1..%d (GMP model)" % (8 if tier == "quick" else 12), unwind=2, timeout=1200,
+                   args={"libs": ["wrapint", "bignums"], "gmp_model": True, "seed": 1 + seed}, defines=("DIVW=%d" % (8 if tier == "quick" else 12),)))
+    wl = {"libs": ["wrapint", "wrapped_interval", "bignums"], "gmp_model": True, "seed": 1 + seed}
+    J.append(E1Job("wint", "h_wint_add", what="wrapped_interval + - neg: widths 1..4, all intervals, all members", unwind=20, timeout=900, args=wl))
+    J.append(E1Job("wint", "h_wint_bitwise", what="wrapped_interval And Or Xor: widths 1..4", unwind=20, timeout=900, args=wl))
+    J.append(E1Job("wint", "h_wint_lattice", what="wrapped_interval | || & <=: width 3", unwind=20, timeout=900, args=wl, defines=("FIXW=3",)))
+    if tier == "thorough":
+        J.append(E1Job("wint", "h_wint_shift", what="wrapped_interval Shl LShr AShr: widths 1..4", unwind=20, timeout=1800, args=wl))
+        J.append(E1Job("wint", "h_wint_lattice", what="wrapped_interval | || & <=: width 4", unwind=20, timeout=3000, args=wl, defines=("FIXW=4",)))
+    return J
+
+
+PROPS["C13"] = dict(
+    jobs=c13_jobs, engine="E1",
+    explanation="crab::wrapint (lib/wrapint.cpp) against an independent bit-vector reference for all widths 1..64 and all operands; wrapped_interval operations: every bit-vector result of members of the argument intervals lies in the result interval (membership = the real at() and an independent modular-distance predicate).",
+    bounds={"quick": "wrapint: all widths and all 64-bit operands for + - neg ++ -- comparisons & | ^ << lshr ashr sext zext keep_lower msb min/max and bignum conversions; * udiv urem at widths <= 16, sdiv srem <= 8; wrapped_interval + - neg And Or Xor at widths <= 4, | || & <= at width 3",
+            "thorough": "* udiv urem <= 24, sdiv srem <= 12; wrapped_interval shifts <= 4, lattice at width 4"},
+    outside=["wrapped_interval * / SDiv UDiv SRem URem Trunc ZExt SExt: CBMC gave no verdict within 900 s even at width 3 (vacuity witness not decided) - only the native random-vector validation runs on them (it found defect F15 in signed multiplication)",
+             "wrapped_interval_domain (environment over wrapped intervals): not encoded", "string conversions (GMP/iostream code)", "wrapint(q_number)"],
+    assumptions=E1_ASSUME + GMP_ASSUME,
+    technique="bounded model checking of the compiled code (clang -> LLVM IR -> own translator -> C -> CBMC 6.11 with unwinding assertions), translation validated against a native build on every run")
+
+
+def c20_jobs(tier, seed):
+    J = []
+    bl = {"libs": ["bignums"], "gmp_model": True, "seed": 1 + seed}
+    for e in ("h_bn_int64_roundtrip", "h_bn_uint64", "h_bn_cmp_add", "h_bn_beyond64", "h_bn_bitwise", "h_bn_shift", "h_bn_fill_ones"):
+        J.append(E1Job("bignums", e, what="lib/bignums.cpp wrappers over the GMP model", unwind=12, timeout=600, args=bl))
+    J.append(E1Job("bignums", "h_bn_muldiv", what="z_number * / %%: operands in +-%d" % (128 if tier == "quick" else 1024), unwind=2, timeout=1800, args=bl, defines=("BN_R=%d" % (128 if tier == "quick" else 1024),)))
+    sl = {"libs": ["safeint"], "seed": 1 + seed}
+    for e in ("h_si_add", "h_si_sub", "h_si_noerr", "h_si_cmp"):
+        J.append(E1Job("safeint", e, what="lib/safeint.cpp: all 64-bit operands", unwind=2, timeout=600, args=sl))
+    for e in ("h_si_mul", "h_si_div"):
+        J.append(E1Job("safeint", e, what="safe_i64 * /: one operand arbitrary, the other within +-2^%d" % (12 if tier == "quick" else 31), unwind=2, timeout=1800, args=sl, defines=("MB=%d" % (12 if tier == "quick" else 31),)))
+    # linear expressions / constraints / systems (E2): coefficient tuples enumerated, constants and valuation symbolic
+    rng = random.Random(200 + seed)
+    tuples = [(1, -1, 2, 0, 3, 1), (0, 0, 0, 0, -2, 0), (2, -3, -2, 3, 0, 1), (1, 1, -1, -1, -1, 1), (0, 2, 0, 0, 1, 1), (1, 0, -1, 0, 0, 1), (-1, 0, 0, 0, 2, 0), (3, 3, 3, 3, 3, 1)]
+    n = 24 if tier == "quick" else 400
+    while len(tuples) < n:
+        tuples.append(tuple(rng.randint(-3, 3) for _ in range(5)) + (rng.randint(0, 1),))
+    for t in tuples:
+        J.append(Job("lincons", {"coefs": ",".join(map(str, t))}, defines=("DOM=1",), what="linear_constraints.hpp with coefficients %s" % (t,), witnesses=1, budget=120))
+    return J
+
+
+PROPS["C20"] = dict(
+    jobs=c20_jobs, engine="E1+E2",
+    explanation="z_number wrappers of lib/bignums.cpp (E1, over the inline GMP model): int64/uint64 conversions over the full 64-bit range, order, + - neg ++ --, truncating / and sign of %, floor >>, <<, two's complement & | ^, fill_ones, sums beyond 64 bits; safe_i64 (E1): an operation either ends in CRAB_ERROR or returns the exact result for all 64-bit operands; "
+                "linear_expression/constraint/system (E2): evaluation is a homomorphism for + - scaling and renaming, negate() is the exact complement over the integers, is_tautology/is_contradiction are exact on constant constraints, normalize() preserves the solution set.",
+    bounds={"quick": "conversions/order/add/sub/bitwise: all 64-bit values; * / %: operands in +-128; shifts by <= 30; safe_i64 * /: second operand within +-2^12; linear constraints: 24 coefficient tuples in -3..3 (2 variables), constants and valuation unbounded",
+            "thorough": "* / % in +-1024; safe_i64 * / second operand +-2^31; 400 coefficient tuples"},
+    outside=["q_number (rationals, rounding): no mpq model", "string round trips (GMP code)", "numbers beyond the model's 100-bit range", "z_number::operator<< / >> with negative shift amounts (the wrappers pass |k| to GMP; noted, not claimed)"],
+    assumptions=E1_ASSUME + GMP_ASSUME + E2_ASSUME,
+    technique="bounded model checking of the compiled wrappers (clang -> LLVM IR -> C -> CBMC) + solver-based symbolic execution of linear_constraints.hpp (z3-backed z_number)")
